@@ -13,9 +13,10 @@ import (
 
 const (
 	// Note: v2.0.0 binds signed hashes to the session hash and message ID,
-	// the version bump makes mixed-version ceremonies fail at stream negotiation
-	// instead of at signature verification.
-	protocolIDPrefix = "/charon/dkg/bcast/2.0.0"
+	// v3.0.0 additionally binds them to the broadcasting peer so that a fully signed
+	// message cannot be presented by another peer as its own. The version bump makes
+	// mixed-version ceremonies fail at stream negotiation instead of at signature verification.
+	protocolIDPrefix = "/charon/dkg/bcast/3.0.0"
 	protocolIDSig    = protocolIDPrefix + "/sig"
 	protocolIDMsg    = protocolIDPrefix + "/msg"
 	receiveTimeout   = time.Minute                    // Allow for peers to be out of sync, with some sending messages much earlier and having to wait.
@@ -34,8 +35,14 @@ type CheckMessage func(ctx context.Context, peerID peer.ID, msgAny *anypb.Any) e
 // signFunc is a function that signs a hash.
 type signFunc func(msgID string, hash []byte) ([]byte, error)
 
-// verifyFunc is a function that verifies a message and its signatures.
-type verifyFunc func(string, *anypb.Any, [][]byte) error
+// verifyFunc is a function that verifies a message broadcast by sender and its signatures.
+type verifyFunc func(sender peer.ID, msgID string, anyPB *anypb.Any, sigs [][]byte) error
+
+// senderMsgID returns the message ID bound to the broadcasting peer, this is what gets hashed and signed.
+// The separator cannot occur in a peer ID, so the binding is unambiguous.
+func senderMsgID(sender peer.ID, msgID string) string {
+	return sender.String() + "\x00" + msgID
+}
 
 // BroadcastFunc is a function that reliably-broadcasts a message to all peers (excluding self).
 type BroadcastFunc func(ctx context.Context, msgID string, msg proto.Message) error
